@@ -422,10 +422,14 @@ class PassiveMonitor(Monitor):
         st = self.run.held_state(mid)
         j = self.run.held.get(mid)
         pools = {}
+        crowd = set()
         for vid, (o, n0, rem0, piq0) in self.pre.items():
             frags = o.simulated.matched[n0:]
             sp_taken = o.order_type.persistence_type == "MARKET_ON_CLOSE" and st is not None and st["bspr"]
             if sp_taken:
+                # carried to the starting price: its fills are not passive fills, but it may still take part in the
+                # update's matching (e.g. persistence changed after the reconciliation), so nobody beside it is "lone"
+                crowd.add((self._pool(o), o.selection_id))
                 continue
             fill = round(sum(f[2] for f in frags), 2)
             d = deltas.get(str(o.selection_id), {})
@@ -449,7 +453,7 @@ class PassiveMonitor(Monitor):
             lf["rem_after"] = o.size_remaining
             lf["last"] = (o, j)
         for (pool, sel), lst in pools.items():
-            if len(lst) > 1:
+            if len(lst) > 1 or (pool, sel) in crowd:
                 for o, fill, el, rem0 in lst:
                     self.life[o._vid]["lone"] = False
                 if sum(1 for _, _, el, _ in lst if el) >= 2:
